@@ -577,6 +577,9 @@ ON_CODE = {'C05': ['Client'], 'C06': ['Client'], 'C14': ['Client'], 'C07': ['Ext
 # [errors] the two client APIs: C14 at the API level, C17 (same answer, enums as published), C16/C17 open through both APIs
 for _p, _g in {'C14': ['Errors'], 'C16': ['Open'], 'C17': ['Errors', 'Open']}.items():
     ON_CODE[_p] = ON_CODE.get(_p, []) + _g
+# [shm] the seqlock (writer protocol, reader bound, the machines of C02/C03 with the annotation read off the source) and `ShmWriter::new`
+for _p, _g in {'C02': ['Seqlock'], 'C03': ['Seqlock'], 'C11': ['Seqlock'], 'C18': ['Seqlock'], 'C04': ['WriterNew'], 'C16': ['WriterNew']}.items():
+    ON_CODE[_p] = ON_CODE.get(_p, []) + _g
 for _p, _g in ON_CODE.items():
     if _p in PROPS:
         PROPS[_p]['code_tie'] = PROPS[_p].get('code_tie', []) + [f'ClockBound.Properties.OnCode{_x}' for _x in _g]
